@@ -98,3 +98,62 @@ class SimStore:
         if self.codec == "netcdf":
             dt = _desanitize_attrs_nc(dt)
         return dt
+
+
+class SimDisk:
+    """The same medium behind xarray's own entry points, so that the *real* ``model.save(path, engine=...)`` and
+    ``Model.load(path, engine=...)`` run (compute(), serialize(), insert_placeholders, write_model_tree,
+    open_model_tree, deserialize) instead of a replica of their steps: ``DataTree.to_netcdf`` / ``DataTree.to_zarr``
+    write into a dictionary of paths, ``xarray.open_datatree`` reads from it. What the real engines add (type
+    coercions, refusal of complex numbers by netCDF4) is not reproduced."""
+
+    def __init__(self):
+        self.files: dict = {}
+        self._saved = None
+
+    # -- the three patched entry points ------------------------------------------------------------
+    def _to_netcdf(self, dt, path=None, mode="w", engine=None, **kwargs):
+        nodes = {}
+        for p, ds in _tree_to_dict(dt).items():
+            _validate_dataset_names(ds)
+            _validate_attrs(ds, "netcdf4")
+            nodes[p] = _cf_roundtrip(ds)
+        self.files[str(path)] = ("netcdf", nodes, dt.name)
+
+    def _to_zarr(self, dt, store=None, mode="w-", **kwargs):
+        if mode == "w-" and str(store) in self.files:
+            raise FileExistsError(f"path {store!r} contains a group")
+        nodes = {}
+        for p, ds in _tree_to_dict(dt).items():
+            _validate_dataset_names(ds)
+            ds = ds.copy()
+            ds.attrs = _json_attrs(ds.attrs)
+            for v in ds.variables:
+                ds[v].attrs = _json_attrs(ds[v].attrs)
+            nodes[p] = _cf_roundtrip(ds)
+        self.files[str(store)] = ("zarr", nodes, dt.name)
+
+    def _open_datatree(self, path, engine=None, chunks=None, **kwargs):
+        if str(path) not in self.files:
+            raise FileNotFoundError(str(path))
+        kind, nodes, name = self.files[str(path)]
+        want = "zarr" if engine == "zarr" else "netcdf"
+        if kind != want:
+            raise ValueError(f"{path!r} was written by another engine family ({kind}) than it is opened with ({engine})")
+        if chunks is not None:
+            nodes = {p: ds.chunk(chunks) for p, ds in nodes.items()}
+        else:
+            nodes = {p: ds.copy() for p, ds in nodes.items()}
+        return xr.DataTree.from_dict(nodes, name=name)
+
+    def __enter__(self):
+        disk = self
+        self._saved = (xr.DataTree.to_netcdf, xr.DataTree.to_zarr, xr.open_datatree)
+        xr.DataTree.to_netcdf = lambda dt, *a, **k: disk._to_netcdf(dt, *a, **k)
+        xr.DataTree.to_zarr = lambda dt, *a, **k: disk._to_zarr(dt, *a, **k)
+        xr.open_datatree = lambda *a, **k: disk._open_datatree(*a, **k)
+        return self
+
+    def __exit__(self, *exc):
+        xr.DataTree.to_netcdf, xr.DataTree.to_zarr, xr.open_datatree = self._saved
+        return False
